@@ -906,6 +906,7 @@ _SUBSUMES = {
     "numbers.Number": _NP_INT | _NP_FLT | _NP_CPX | {"numbers.Integral", "numbers.Real", "numbers.Complex"},
     "np.number": (_NP_INT | _NP_FLT | _NP_CPX) - {"int", "bool", "float", "complex"},
     "np.generic": {x for x in (_NP_INT | _NP_FLT | _NP_CPX) if x.startswith("np.")} | {"np.bool_", "np.datetime64", "np.timedelta64", "np.number", "np.integer", "np.floating"},
+    "awkward0.MaskedArray": {"awkward0.BitMaskedArray", "awkward0.IndexedMaskedArray"}, "awkward0.ChunkedArray": {"awkward0.AppendableArray"},
     "Iterable": {"list", "tuple", "dict", "set", "str", "bytes", "np.ndarray"}, "collections.abc.Iterable": {"list", "tuple", "dict", "set", "str", "bytes", "np.ndarray"},
 }
 
@@ -1058,7 +1059,8 @@ def rule_py_keepdims_recombine(rep, floor=3):
 def rule_py_record_field_trim(rep, floor=4):
     r = rep.rule("TRIM.py-record-field", "(a) wherever the Python layer takes `R.field(k)` of a layout R known to be a RecordArray (under isinstance(R, recordtypes / RecordArray)) the result is cut to the record array's own length "
                  "(`R.field(k)[: len(R)]`): field() hands out the stored content, which may be longer than the array; (b) a division or modulo by `X.size` sits under a test of `X.size`: a RegularArray may have size 0; "
-                 "(c) a `while isinstance(v, RegularArray)` descent steps with `v = v.content[: len(v) * v.size]`; (d) a RegularArray is never measured by len(v.content)", floor=floor)
+                 "(c) a `while isinstance(v, RegularArray)` descent steps with `v = v.content[: len(v) * v.size]`; (d) a RegularArray is never measured by len(v.content); "
+                 "(e) a comprehension over `R.contents` of a RecordArray trims each item to len(R) or feeds a RecordArray constructor that is given the length explicitly", floor=floor)
     table = load_table("py_recordfield_exceptions.json")
     for rel in [x for x in pf.all_modules() if "generated_parser" not in x]:
         m = pf.module(rel)
@@ -1092,6 +1094,29 @@ def rule_py_record_field_trim(rep, floor=4):
                 k += 1
                 guarded = any(recv in ast.unparse(t) for t, _ in pf.enclosing_tests(c))
                 r.check(guarded, "%s:%s:%s#%d" % (rel, getattr(_owner_func(c), "name", "<module>"), recv, k), m.where(c), "%s in %s divides by `%s` without testing it: a RegularArray of size 0 raises ZeroDivisionError" % (getattr(_owner_func(c), "name", "<module>"), rel, recv), detail="under a test of %s" % recv)
+    # (e) comprehensions over the contents of a RecordArray
+    for rel in [x for x in pf.all_modules() if "generated_parser" not in x and not x.startswith("_connect/_numba")]:
+        m = pf.module(rel)
+        k = 0
+        for c in ast.walk(m.tree):
+            if not (isinstance(c, (ast.ListComp, ast.GeneratorExp)) and len(c.generators) == 1 and isinstance(c.generators[0].iter, ast.Attribute) and c.generators[0].iter.attr == "contents"
+                    and isinstance(c.generators[0].iter.value, ast.Name) and isinstance(c.generators[0].target, ast.Name)):
+                continue
+            L, x = c.generators[0].iter.value.id, c.generators[0].target.id
+            if not any(inb and ("RecordArray" in ast.unparse(t_) or "recordtypes" in ast.unparse(t_)) and L in ast.unparse(t_) for t_, inb in pf.enclosing_tests(c)):
+                continue
+            k += 1
+            fn = getattr(_owner_func(c), "name", "<module>")
+            key = "%s:%s:%s.contents" % (rel, fn, L)
+            trimmed = ("%s[:len(%s)]" % (x, L)) in ast.unparse(c.elt).replace(" ", "")
+            par = getattr(c, "_parent", None)
+            rebuilt = isinstance(par, ast.Call) and (pf.dotted(par.func) or "").endswith("RecordArray") and len(par.args) >= 3
+            if not (trimmed or rebuilt) and key in table:
+                r.excepted(key, table[key])
+                r.ok(key)
+                continue
+            r.check(trimmed or rebuilt, "%s#%d" % (key, k), m.where(c), "%s in %s converts every item of `%s.contents` (`%s`) without cutting it to len(%s) and without rebuilding a RecordArray of explicit length: fields may be longer than the record array" % (
+                fn, rel, L, ast.unparse(c.elt)[:40], L), detail="trimmed, or rebuilt with an explicit length")
     # (c), (d) RegularArray: the reachable part of the content is len(X) * X.size
     for rel in [x for x in pf.all_modules() if "generated_parser" not in x and not x.startswith("_connect/_numba")]:
         m = pf.module(rel)
@@ -1411,6 +1436,18 @@ def rule_py_numba_lowering(rep, floor=20):
     return r.done()
 
 
+def _walk_own(cls):
+    """nodes of a class body without the bodies of classes nested in it (their `self` is another object)"""
+    stack = [n for n in cls.body if not isinstance(n, ast.ClassDef)]
+    while stack:
+        n = stack.pop()
+        yield n
+        for ch in ast.iter_child_nodes(n):
+            if isinstance(ch, ast.ClassDef):
+                continue
+            stack.append(ch)
+
+
 def rule_py_self_attrs(rep, floor=500):
     r = rep.rule("ATTR.py-self-defined", "(a) every attribute a method reads on `self` is defined somewhere in the class's family inside the package - assigned on self/cls, defined as a method, property or class attribute in the class, an ancestor or a descendant "
                  "(tabled: names supplied by a base class outside the package); (b) every attribute read or written on a variable named `lookup` in the Numba connector is one the class Lookup defines", floor=floor)
@@ -1432,7 +1469,7 @@ def rule_py_self_attrs(rep, floor=500):
                     for x in ast.walk(t_):
                         if isinstance(x, ast.Name):
                             out.add(x.id)
-        for n in ast.walk(c):
+        for n in _walk_own(c):
             if isinstance(n, ast.Attribute) and isinstance(n.ctx, ast.Store) and isinstance(n.value, ast.Name) and n.value.id in ("self", "cls", "out"):
                 out.add(n.attr)
         return out
@@ -1460,7 +1497,7 @@ def rule_py_self_attrs(rep, floor=500):
                 continue
             d = own(c) | ancestors(c, {c.name}) | descendants(c.name, {c.name})
             seen = set()
-            for n in ast.walk(c):
+            for n in _walk_own(c):
                 if isinstance(n, ast.Attribute) and isinstance(n.ctx, ast.Load) and isinstance(n.value, ast.Name) and n.value.id == "self" and not n.attr.startswith("__") and n.attr not in seen:
                     seen.add(n.attr)
                     key = "%s:%s.%s" % (rel, c.name, n.attr)
@@ -1489,9 +1526,7 @@ def rule_py_behaviorof_args(rep, floor=60):
                  "so on layouts it always answers None and the behavior of the inputs is silently dropped from the result", floor=floor)
     for rel in [x for x in pf.all_modules() if "generated_parser" not in x]:
         m = pf.module(rel)
-        for fd in m.tree.body:
-            if not isinstance(fd, ast.FunctionDef):
-                continue
+        for fd in [n for n in ast.walk(m.tree) if isinstance(n, ast.FunctionDef)]:
             params = {a.arg for a in fd.args.args + fd.args.kwonlyargs} | ({fd.args.vararg.arg} if fd.args.vararg else set())
             layouts = {}
             for s_ in ast.walk(fd):
@@ -1507,7 +1542,8 @@ def rule_py_behaviorof_args(rep, floor=60):
             for c in ast.walk(fd):
                 if isinstance(c, ast.Call) and (pf.dotted(c.func) or "").endswith("behaviorof"):
                     k += 1
-                    bad = [a.id for a in c.args if isinstance(a, ast.Name) and a.id in layouts and layouts[a.id] < c.lineno and not (a.id in params and layouts[a.id] > c.lineno)]
+                    names = [a for a in c.args if isinstance(a, ast.Name)] + [a.value for a in c.args if isinstance(a, ast.Starred) and isinstance(a.value, ast.Name)]
+                    bad = [a.id for a in names if a.id in layouts and layouts[a.id] < c.lineno and not (a.id in params and layouts[a.id] > c.lineno)]
                     # a parameter rebound to its own layout (array = to_layout(array)) before the call is a layout too
                     r.check(not bad, "%s:%s#behaviorof%d" % (rel, fd.name, k), m.where(c), "%s in %s calls `%s` on %s, which %s assigned from to_layout(...): the answer is always None" % (
                         fd.name, rel, ast.unparse(c)[:60], bad, "were" if len(bad) > 1 else "was"), detail="called on the original arguments")
@@ -1782,4 +1818,48 @@ def rule_py_first_only_check(rep, floor=3):
                     continue
                 r.check(bad is None, "%s:%s:%s#%d" % (rel, getattr(_owner_func(lp), "name", "<module>"), acc, k), m.where(bad or n), "%s: inside `if %s is None:` the test `%s` rejects an item on its own properties, so it is applied to the first item only" % (
                     rel, acc, ast.unparse(bad.test)[:70] if bad else ""), detail="item checks outside the first-item arm")
+    return r.done()
+
+
+def rule_py_arm_store(rep, floor=150):
+    r = rep.rule("DEAD.py-arm-store", "(a) when every arm of an if/elif/else chain assigns the same local and nothing after the chain (nor the next iteration of an enclosing loop) reads it, each arm reads it itself: "
+                 "an arm that only stores it computed a value that the code meant to use after the chain (the shared follow-up ended up indented into the last arm); "
+                 "(b) a function that declares *args or **kwargs uses them", floor=floor)
+    for rel in [x for x in pf.all_modules() if "generated_parser" not in x]:
+        m = pf.module(rel)
+        done = set()
+        for fd in [n for n in ast.walk(m.tree) if isinstance(n, ast.FunctionDef)]:
+            for v_ in (fd.args.vararg, fd.args.kwarg):
+                if v_ is None:
+                    continue
+                used = any(isinstance(n, ast.Name) and n.id == v_.arg and isinstance(n.ctx, ast.Load) for n in ast.walk(fd))
+                trivial = len(fd.body) <= 2 and any(isinstance(s_, (ast.Raise, ast.Pass)) for s_ in fd.body)
+                r.check(used or trivial, "%s:%s:%s" % (rel, fd.name, v_.arg), m.where(fd), "%s in %s accepts %s%s and never looks at it: whatever the caller passes there is silently dropped" % (
+                    fd.name, rel, "*" if v_ is fd.args.vararg else "**", v_.arg), detail="used")
+            for first, tests, has_else, _ in _chains(fd):
+                if id(first) in done or not has_else:
+                    continue
+                done.add(id(first))
+                arms, cur = [], first
+                while True:
+                    arms.append(cur.body)
+                    if len(cur.orelse) == 1 and isinstance(cur.orelse[0], ast.If):
+                        cur = cur.orelse[0]
+                    else:
+                        arms.append(cur.orelse)
+                        break
+                common = set.intersection(*[{t.id for s_ in a for t in (s_.targets if isinstance(s_, ast.Assign) else []) if isinstance(t, ast.Name)} for a in arms])
+                inside = {id(x) for a in arms for s_ in a for x in ast.walk(s_)}
+                endline = max(getattr(x, "end_lineno", 0) or 0 for a in arms for s_ in a for x in ast.walk(s_))
+                for v in sorted(common):
+                    later = [x for x in ast.walk(fd) if isinstance(x, ast.Name) and x.id == v and isinstance(x.ctx, ast.Load) and id(x) not in inside and x.lineno > endline]
+                    loops = [p_ for p_ in pf.parent_chain(first) if isinstance(p_, (ast.For, ast.While))]
+                    around = [x for lp in loops[:1] for x in ast.walk(lp) if isinstance(x, ast.Name) and x.id == v and isinstance(x.ctx, ast.Load) and id(x) not in inside]
+                    key = "%s:%s:%s@chain%d" % (rel, fd.name, v, len(done))
+                    if later or around:
+                        r.ok(key, "read after the chain")
+                        continue
+                    silent = [i for i, a in enumerate(arms) if not any(isinstance(x, ast.Name) and x.id == v and isinstance(x.ctx, ast.Load) for s_ in a for x in ast.walk(s_))]
+                    r.check(not silent or len(silent) == len(arms), key, m.where(first), "%s in %s: every arm of the chain assigns `%s`, nothing after the chain reads it, and arm(s) %s never read it either - the code that consumes %s sits inside only some of the arms" % (
+                        fd.name, rel, v, silent, v), detail="consumed in every arm or after the chain")
     return r.done()
